@@ -82,6 +82,13 @@ Script ==
     [] ScriptName = "crossed_removes" ->
          << <<"gen", 1, Up(1)>>, <<"gen", 2, Up(1)>>, <<"gen", 1, [c |-> "rm", k |-> 1]>>, <<"gen", 2, [c |-> "rm", k |-> 1]>>,
             <<"dlv", 2, 1>>, <<"dlv", 1, 2>> >>
+    \* the same misuse, continued until the two maps' TOP clocks are ordered ({1:3,3:1} above {1:2}) while the entry
+    \* clocks of key 1 are still concurrent ({1:1,3:1} vs {1:2}): the nested check depends on the entry clocks only
+    [] ScriptName = "nested_reused_dot_ordered" ->
+         << <<"gen", 1, Up(1)>>, <<"gen", 3, Up(1)>>, <<"dlv", 1, 2>>,
+            <<"gen", 2, [c |-> "up", k |-> 1, sub |-> [c |-> "add", m |-> 2]]>>, <<"gen", 2, Up(1)>>,
+            <<"gen", 1, [c |-> "up", k |-> 2, sub |-> [c |-> "add", m |-> 1]]>>,
+            <<"gen", 1, [c |-> "up", k |-> 2, sub |-> [c |-> "add", m |-> 1]]>> >>    \* twice: key 2 ends at dot 1:3, which replica 2 never spent
 ScriptInit == InitAfter(Script)
 
 \* JSON-friendly renderings: partial functions over Keys become total sequences of 0/1-element tuples
